@@ -102,7 +102,7 @@ func NewRun(prop, level string) *Run {
 		bz, err := os.ReadFile(r.Replay)
 		if err != nil {
 			fmt.Println("cannot read replay:", err)
-			os.Exit(2)
+			os.Exit(3)
 		}
 		var rf struct {
 			Seed int64           `json:"seed"`
@@ -111,7 +111,7 @@ func NewRun(prop, level string) *Run {
 		}
 		if err := json.Unmarshal(bz, &rf); err != nil {
 			fmt.Println("bad replay file:", err)
-			os.Exit(2)
+			os.Exit(3)
 		}
 		r.Seed, r.ReplayCase = rf.Seed, rf.Case
 		if rf.Tier != "" {
@@ -284,7 +284,7 @@ func (r *Run) Finish() {
 		for _, s := range inc {
 			fmt.Printf("INCONCLUSIVE property=%s %s\n", r.Prop, s)
 		}
-		os.Exit(2)
+		os.Exit(3) // not 2: the Go runtime exits with 2 on an unrecovered panic
 	default:
 		fmt.Printf("RESULT %s: held on everything observed\n", r.Prop)
 		os.Exit(0)
